@@ -77,7 +77,8 @@ struct Model {
             case SELF_INVALIDATE: if (Rec *s = find(idx)) s->valid = false; break;
             case NESTED_NOTIFY: if (depth + 1 <= MAXDEPTH) notify(a.arg, depth + 1); break;
             }
-            if (!find(idx)) return;   // the owner unsubscribed itself (directly or through a nested round): its script stops here
+            // the script goes on even if the owner unsubscribed itself: a callback may keep working after that (it just must
+            // not touch its own captures), e.g. remove itself and subscribe a replacement
         }
     }
 };
@@ -119,7 +120,6 @@ struct Real {
             case SELF_INVALIDATE: if (handle[idx].isValid()) view->invalidate(); break;
             case NESTED_NOTIFY: if (d + 1 <= MAXDEPTH) notify(a.arg, d + 1); break;
             }
-            if (!handle[idx].isValid()) return;   // this observer is gone: its script stops
         }
     }
     void notify(int arg, int d) { int saved = depth; depth = d; subject.notify(arg); depth = saved; }
